@@ -70,6 +70,10 @@ impl RunResult {
 
 pub trait Property: Sync {
     fn id(&self) -> &'static str;
+    /// prefix of replay file names / engine tag (differs from id for the `proc` engine)
+    fn replay_tag(&self) -> &'static str {
+        self.id()
+    }
     fn level(&self) -> &'static str {
         "exploration"
     }
@@ -89,9 +93,23 @@ pub trait Property: Sync {
         }
     }
     /// extra evidence (e.g. sub-checks run outside the seeded batch)
-    fn extra(&self, _tier: Tier, _seed: u64) -> Option<(Value, Vec<(Value, Violation)>, Option<String>)> {
+    fn extra(&self, _tier: Tier, _seed: u64) -> Option<Extra> {
         None
     }
+}
+
+/// Result of sub-checks run outside the seeded batch.
+#[derive(Default)]
+pub struct Extra {
+    pub value: Value,
+    /// violations found by the sub-check itself, with the case to store in the replay file
+    pub violations: Vec<(Value, Violation)>,
+    pub harness: Option<String>,
+    /// violations already minimised and written to replay files by another engine: (key, message, path)
+    pub passthrough: Vec<(String, String, String)>,
+    /// KNOWN-FINDING lines printed by another engine
+    pub known_lines: Vec<String>,
+    pub evaluations: u64,
 }
 
 #[derive(Clone, Debug, serde::Deserialize)]
@@ -148,7 +166,8 @@ struct Merged {
     violations: Vec<(u64, Violation)>,
     harness: Vec<(u64, String)>,
     skipped: BTreeMap<String, u64>,
-    batch_digest: BTreeMap<u64, Digest>,
+    /// order-independent fold of (run index, run digest): does not depend on workers or chunking
+    batch_digest: (u64, u64),
 }
 
 pub fn run_one(p: &dyn Property, seed: u64, idx: u64, tier: Tier) -> (Value, RunResult) {
@@ -175,9 +194,10 @@ pub fn run_batch(p: &dyn Property, cfg: &BatchCfg) -> i32 {
         violations: vec![],
         harness: vec![],
         skipped: BTreeMap::new(),
-        batch_digest: BTreeMap::new(),
+        batch_digest: (0, 0),
     });
-    const CHUNK: u64 = 64;
+    // chunking only amortises the atomic counter; results are merged by run index, never by worker
+    let chunk: u64 = (n_runs / (cfg.workers as u64 * 8)).clamp(1, 64);
     std::thread::scope(|s| {
         for _ in 0..cfg.workers {
             s.spawn(|| {
@@ -189,23 +209,26 @@ pub fn run_batch(p: &dyn Property, cfg: &BatchCfg) -> i32 {
                     violations: vec![],
                     harness: vec![],
                     skipped: BTreeMap::new(),
-                    batch_digest: BTreeMap::new(),
+                    batch_digest: (0, 0),
                 };
                 loop {
                     if stop.load(Ordering::Relaxed) {
                         break;
                     }
-                    let lo = next.fetch_add(CHUNK, Ordering::Relaxed);
+                    let lo = next.fetch_add(chunk, Ordering::Relaxed);
                     if lo >= n_runs {
                         break;
                     }
-                    let hi = (lo + CHUNK).min(n_runs);
-                    let mut chunk_digest = Digest::default();
+                    let hi = (lo + chunk).min(n_runs);
                     for i in lo..hi {
                         let (_case, r) = run_one(p, cfg.seed, i, cfg.tier);
                         local.evaluations += 1;
-                        chunk_digest.u64(r.digest.0);
-                        chunk_digest.u64(r.digest.1);
+                        let mut rd = Digest::default();
+                        rd.u64(i);
+                        rd.u64(r.digest.0);
+                        rd.u64(r.digest.1);
+                        local.batch_digest.0 = local.batch_digest.0.wrapping_add(rd.0);
+                        local.batch_digest.1 = local.batch_digest.1.wrapping_add(rd.1);
                         for (k, v) in &r.counters {
                             *local.counters.entry(k.clone()).or_insert(0) += v;
                         }
@@ -227,7 +250,6 @@ pub fn run_batch(p: &dyn Property, cfg: &BatchCfg) -> i32 {
                             local.harness.push((i, h));
                         }
                     }
-                    local.batch_digest.insert(lo, chunk_digest);
                     if start.elapsed().as_secs() > cap {
                         stop.store(true, Ordering::Relaxed);
                         truncated_at.fetch_min(hi, Ordering::Relaxed);
@@ -245,7 +267,8 @@ pub fn run_batch(p: &dyn Property, cfg: &BatchCfg) -> i32 {
                 for (k, v) in local.skipped {
                     *m.skipped.entry(k).or_insert(0) += v;
                 }
-                m.batch_digest.extend(local.batch_digest);
+                m.batch_digest.0 = m.batch_digest.0.wrapping_add(local.batch_digest.0);
+                m.batch_digest.1 = m.batch_digest.1.wrapping_add(local.batch_digest.1);
             });
         }
     });
@@ -253,21 +276,20 @@ pub fn run_batch(p: &dyn Property, cfg: &BatchCfg) -> i32 {
     m.violations.sort_by(|a, b| a.0.cmp(&b.0).then(a.1.key().cmp(&b.1.key())));
     m.harness.sort();
     let truncated = stop.load(Ordering::Relaxed);
-    let mut batch = Digest::default();
-    for (lo, d) in &m.batch_digest {
-        batch.u64(*lo);
-        batch.u64(d.0);
-        batch.u64(d.1);
-    }
+    let batch = Digest(m.batch_digest.0, m.batch_digest.1);
 
     // extra sub-checks outside the seeded batch
     let mut extra_val = None;
     let mut extra_harness = None;
     let mut extra_violations: Vec<(Value, Violation)> = vec![];
-    if let Some((v, viols, h)) = p.extra(cfg.tier, cfg.seed) {
-        extra_val = Some(v);
-        extra_violations = viols;
-        extra_harness = h;
+    let mut passthrough: Vec<(String, String, String)> = vec![];
+    let mut extra_known: Vec<String> = vec![];
+    if let Some(x) = p.extra(cfg.tier, cfg.seed) {
+        extra_val = Some(x.value);
+        extra_violations = x.violations;
+        extra_harness = x.harness;
+        passthrough = x.passthrough;
+        extra_known = x.known_lines;
     }
 
     // triage: known findings vs new violations
@@ -320,7 +342,7 @@ pub fn run_batch(p: &dyn Property, cfg: &BatchCfg) -> i32 {
             harness_msgs.push(format!("violation {} at run {} did not reproduce on replay", v.key(), i));
             continue;
         }
-        let path = write_replay(&cfg.verif_dir, p.id(), cfg.seed, *i, rs, &min_v, &min_case, &case, steps, &r2.digest);
+        let path = write_replay(&cfg.verif_dir, p.id(), p.replay_tag(), cfg.seed, *i, rs, &min_v, &min_case, &case, steps, &r2.digest);
         println!("violation: {} :: {}", min_v.key(), min_v.msg);
         println!("VIOLATION property={} replay={}", p.id(), path);
         replay_paths.push(path);
@@ -330,10 +352,19 @@ pub fn run_batch(p: &dyn Property, cfg: &BatchCfg) -> i32 {
         if k >= cfg.max_reports {
             break;
         }
-        let path = write_replay(&cfg.verif_dir, p.id(), cfg.seed, 1_000_000_000 + k as u64, 0, v, c, c, 0, &Digest::default());
+        let path = write_replay(&cfg.verif_dir, p.id(), p.replay_tag(), cfg.seed, 1_000_000_000 + k as u64, 0, v, c, c, 0, &Digest::default());
         println!("violation: {} :: {}", v.key(), v.msg);
         println!("VIOLATION property={} replay={}", p.id(), path);
         replay_paths.push(path);
+        exit = 1;
+    }
+    for l in &extra_known {
+        println!("{}", l);
+    }
+    for (key, msg, path) in &passthrough {
+        println!("violation: {} :: {}", key, msg);
+        println!("VIOLATION property={} replay={}", p.id(), path);
+        replay_paths.push(path.clone());
         exit = 1;
     }
     if !harness_msgs.is_empty() {
@@ -374,7 +405,7 @@ pub fn run_batch(p: &dyn Property, cfg: &BatchCfg) -> i32 {
     if let Some(e) = extra_val {
         coverage["extra"] = e;
     }
-    let n_viol = fresh.len() + fresh_extra.len();
+    let n_viol = fresh.len() + fresh_extra.len() + passthrough.len();
     let evidence = json!({
         "property_id": p.id(),
         "tier": cfg.tier.name(),
@@ -388,7 +419,7 @@ pub fn run_batch(p: &dyn Property, cfg: &BatchCfg) -> i32 {
     if cfg.write_evidence {
         let dir = format!("{}/evidence", cfg.verif_dir);
         let _ = std::fs::create_dir_all(&dir);
-        let path = format!("{}/{}.json", dir, p.id());
+        let path = std::env::var("VERIF_EVIDENCE_FILE").unwrap_or_else(|_| format!("{}/{}.json", dir, p.id()));
         std::fs::write(&path, serde_json::to_string_pretty(&evidence).unwrap()).expect("writing evidence");
     }
     println!(
@@ -444,6 +475,7 @@ pub fn minimise(p: &dyn Property, case: &Value, v: &Violation) -> (Value, Violat
 pub fn write_replay(
     dir: &str,
     prop: &str,
+    tag: &str,
     seed: u64,
     run: u64,
     run_seed: u64,
@@ -455,9 +487,10 @@ pub fn write_replay(
 ) -> String {
     let rdir = format!("{}/replays", dir);
     let _ = std::fs::create_dir_all(&rdir);
-    let path = format!("{}/{}-{}-{}.json", rdir, prop, seed, run);
+    let path = format!("{}/{}-{}-{}.json", rdir, tag, seed, run);
     let doc = json!({
         "property": prop,
+        "engine": tag,
         "seed": seed,
         "run": run,
         "run_seed": run_seed,
@@ -484,7 +517,8 @@ pub fn replay(props: &[Box<dyn Property>], path: &str) -> i32 {
     };
     let doc: Value = serde_json::from_str(&text).expect("replay file must be JSON");
     let prop = doc["property"].as_str().unwrap_or("");
-    let p = match props.iter().find(|p| p.id() == prop) {
+    let tag = doc["engine"].as_str().unwrap_or(prop);
+    let p = match props.iter().find(|p| p.replay_tag() == tag) {
         Some(p) => p,
         None => {
             println!("HARNESS-ERROR: unknown property {:?} in replay file", prop);
